@@ -27,7 +27,39 @@ pub fn ids() -> Vec<&'static str> {
     vec!["C01", "C02", "C03", "C04", "C05", "C06", "C07", "C08", "C09", "C10", "C11", "C12", "C13", "C14", "C15", "C16", "C17", "C18", "C19", "C20"]
 }
 
+/// Work factor per property on top of the base case counts in each `def` (chosen from measured
+/// throughput so that a quick run takes roughly 15-40 s and a thorough run roughly 5-15 min on
+/// 16 cores).
+fn work_factor(id: &str) -> f64 {
+    match id {
+        "C01" => 25.0,
+        "C02" => 120.0,
+        "C03" => 15.0,
+        "C04" => 4.0,
+        "C05" => 25.0,
+        "C06" => 25.0,
+        "C07" => 25.0,
+        "C08" => 25.0,
+        "C09" => 20.0,
+        "C10" => 10.0,
+        "C11" => 60.0,
+        "C12" => 120.0,
+        "C13" => 100.0,
+        "C14" => 60.0,
+        "C15" => 80.0,
+        "C16" => 80.0,
+        "C17" => 80.0,
+        "C18" => 30.0,
+        "C19" => 60.0,
+        "C20" => 150.0,
+        _ => 1.0,
+    }
+}
+
 pub fn get(id: &str, ctx: &Ctx) -> Option<PropertyDef> {
+    let mut scaled = ctx.clone();
+    scaled.scale *= work_factor(id);
+    let ctx = &scaled;
     Some(match id {
         "C01" => c01::def(ctx),
         "C02" => c02::def(ctx),
